@@ -3038,3 +3038,81 @@ func c05R8(c *Ctx, r *Report) {
 	})
 	r.Floor(rule, n, 1, "hir.MethodDecl constructions")
 }
+
+// ---- C18.R7: narrowed union variables ------------------------------------------------------------------------
+
+func init() {
+	lateInits = append(lateInits, func() {
+		props["C18"].Quick = append(props["C18"].Quick, c18R7)
+		props["C18"].Explanation += " (R7) a variable narrowed from a union to a struct variant is never addressed through its own slot (which holds the union): lowerFieldAddr routes it through the value path, and loadIdent's variant search also matches a named struct variant against the unwrapped access type."
+	})
+}
+
+func c18R7(c *Ctx, r *Report) {
+	const rule = "C18.R7"
+	r.Describe(rule, "mir/gen: lowerFieldAddr takes the l-value path only when a predicate over (Symbol.Type is a union, ident.Type differs) is false; loadIdent compares the access type with types.UnwrapType(variant) or ident.Type with the variant")
+	lfa := c.LookupFn(pkgMIRGen, "(*functionBuilder).lowerFieldAddr")
+	li := c.LookupFn(pkgMIRGen, "(*functionBuilder).loadIdent")
+	addr := c.LookupFn(pkgMIRGen, "isAddressableExpr")
+	if !r.Anchor(rule, lfa != nil && li != nil && addr != nil, "mir/gen lowerFieldAddr / loadIdent / isAddressableExpr") {
+		return
+	}
+	info := lfa.Info()
+	ok1 := false
+	ast.Inspect(lfa.Decl.Body, func(x ast.Node) bool {
+		ifs, ok := x.(*ast.IfStmt)
+		if !ok || nodeCalls(info, ifs.Cond, addr.Obj) == nil {
+			return true
+		}
+		for _, cj := range conjuncts(ifs.Cond) {
+			u, isNot := ast.Unparen(cj).(*ast.UnaryExpr)
+			if !isNot || u.Op != token.NOT {
+				continue
+			}
+			cl, isCall := ast.Unparen(u.X).(*ast.CallExpr)
+			if !isCall {
+				continue
+			}
+			pf := c.FnOf(callee(info, cl))
+			if pf == nil || pf.Decl == nil || pf.Decl.Body == nil {
+				continue
+			}
+			mentionsUnion := false
+			ast.Inspect(pf.Decl.Body, func(y ast.Node) bool {
+				if ta, ok := y.(*ast.TypeAssertExpr); ok && ta.Type != nil && strings.HasSuffix(exprStr(ta.Type), "UnionType") {
+					mentionsUnion = true
+				}
+				return true
+			})
+			if mentionsUnion {
+				ok1 = true
+			}
+		}
+		return true
+	})
+	r.Check(ok1, rule, lfa.Name(), "a narrowed union variable is not addressed through its slot", c.pos(lfa.Decl.Pos()),
+		"`if u is Big { u.D }` reads offset(D) from the variable's slot, which holds the union, not a Big: the field reads unrelated bytes (prints 0 / garbage)")
+	linfo := li.Info()
+	ok2 := false
+	ast.Inspect(li.Decl.Body, func(x ast.Node) bool {
+		cl, ok := x.(*ast.CallExpr)
+		if !ok {
+			return true
+		}
+		sel, ok := ast.Unparen(cl.Fun).(*ast.SelectorExpr)
+		if !ok || sel.Sel.Name != "Equals" || len(cl.Args) != 1 {
+			return true
+		}
+		if inner, ok := ast.Unparen(cl.Args[0]).(*ast.CallExpr); ok {
+			if f := callee(linfo, inner); f != nil && f.Name() == "UnwrapType" && strings.Contains(exprStr(inner), "variant") {
+				ok2 = true
+			}
+		}
+		if strings.HasSuffix(exprStr(sel.X), ".Type") && strings.Contains(exprStr(cl.Args[0]), "variant") && !strings.Contains(exprStr(sel.X), "Symbol") {
+			ok2 = true
+		}
+		return true
+	})
+	r.Check(ok2, rule, li.Name(), "the variant search matches named struct variants", c.pos(li.Decl.Pos()),
+		"the unwrapped access type (a StructType) is compared with the union's variants as declared (NamedType): a struct variant is never found and the identifier is loaded as if its slot held the variant")
+}
